@@ -27,6 +27,33 @@ by the same fresh-process baselines:
   libraries with uncertainty data: all sequences of <= 1 (thorough 2) earlier
   requests (estd or decompose-and-estimate, on either object) followed by an
   ordinary decompose-estimate-evaluate on either object.
+
+Added after the fourth wave (domains in mc/domains/w4_c15.py), again plain
+exhaustive products judged by the same fresh-process baselines; a witness of
+these families carries every plan its process had executed:
+
+* prefix: one library per SI prefix of the units database (20: the same bare
+  numbers in <prefix>J/mol and <prefix>cal/(mol*K)); all 400 ordered pairs of
+  loads, one process per first library (thorough: also all 3-sequences over
+  {da, d, a, k, m, M}); after every load the contents of every live library
+  are compared with a fresh load - what a unit name resolves to must not
+  depend on the names resolved before;
+* rewrite: the event rewrite(path, variant) - the caller replaces the files
+  behind ONE path - followed by a load of that path: all sequences of 2
+  (thorough 3) over 4 variants (unedited; scheme.yaml, library.yaml or the
+  included file edited on its own); after every load every live library is
+  dumped, decomposes, estimates and evaluates, each judged against a fresh
+  process that only ever saw the files the library was loaded from;
+* merge programs: two loaded libraries and a receiver made with the
+  constructor, all sequences of 2 (thorough 3) events Update(target <- source,
+  overwrite) over the 6 ordered pairs of objects x {False, True}: every Update
+  must leave every object but its target unchanged, and every loaded library
+  that has not been a target must still equal a fresh load and estimate as in
+  a fresh process.
+
+The generic digest of process-wide state also covers what module-level
+INSTANCES of the package's classes hold (the units database, the schema
+repository).
 """
 import hashlib
 import inspect
@@ -41,6 +68,7 @@ from ..runner import Result
 from ..explore import BFS
 from .. import REPO, VERIF
 from ..domains import w3_c15 as W3
+from ..domains import w4_c15 as W4
 
 TWO_HASH_SEEDS = ('thorough',)   # tiers in which the space is walked under a second PYTHONHASHSEED
 LEVEL = 'model_checking'
@@ -71,6 +99,24 @@ BOUND = {t: 'universes: 2 synthetic libraries (one with an include and '
                'the 4 ordered pairs',
                ' and GRWSurface2018 twice (7 mappings, <= 1 earlier request)' if t == 'thorough' else '',
                2 if t == 'thorough' else 1) for t in DEPTH}
+for _t in DEPTH:
+    BOUND[_t] += ('; prefix: 20 libraries (one per SI prefix of the units database, '
+                  'the same bare numbers in <prefix>J/mol and <prefix>cal/(mol*K)), all '
+                  '400 ordered pairs of loads, one process per first library%s, every '
+                  'live library dumped after every load; rewrite: all %s over 4 '
+                  'variants of the files behind one path (unedited / scheme.yaml / '
+                  'library.yaml / included file edited) each written to the path and '
+                  'loaded from it, every live library dumped and used for a full '
+                  'decompose-estimate-evaluate of propane after every load; merge '
+                  'programs: %s of {synA, synB, synK} plus a receiver made with the '
+                  'constructor, all %s over 12 events Update(target <- source, '
+                  'overwrite in {False, True}), after each Update every other object '
+                  'compared with its state before and every never-targeted loaded '
+                  'library dumped and used for a full estimate of propane'
+                  % ((' plus all 3-sequences over the 6 prefixes da, d, a, k, m, M',
+                      '2- and 3-sequences', 'the 6 ordered pairs', '2- and 3-sequences')
+                     if _t == 'thorough' else
+                     ('', '2-sequences', 'the 3 two-element subsets', '2-sequences')))
 RULE = ('explicit-state BFS: from every state every enabled event is executed '
         'on freshly rebuilt real objects; observations are compared with '
         'fresh-process baselines of the same logical request.  A transition is '
@@ -78,7 +124,10 @@ RULE = ('explicit-state BFS: from every state every enabled event is executed '
         'events before the observation.  The capacity / units / refused-request '
         'families are plain exhaustive products of their event alphabets, each '
         'sequence executed on freshly loaded objects inside one worker process '
-        'per shard, every event judged by the same baselines')
+        'per shard, every event judged by the same baselines.  The prefix / '
+        'rewrite / merge-program families likewise: the plans of a shard run one '
+        'after the other in one process, each on a world of its own (rewrite: on '
+        'a path of its own), and a witness carries all plans executed so far')
 ASSUMPTIONS = ['canonical state = digest of every live library (contents, '
                'uncertainty block, scheme names/remaps, remembered molecule), the '
                'decompositions and estimates made, plus a generic digest of all '
@@ -96,7 +145,20 @@ ASSUMPTIONS = ['canonical state = digest of every live library (contents, '
                'a refused request is judged by outcome class (exception type or '
                'ok) and by what it leaves behind (library data, later results), '
                'not by which exception the library ought to raise',
-               'nan results are compared by a canonical spelling']
+               'nan results are compared by a canonical spelling',
+               'a library loaded from a path whose files were replaced is judged '
+               'against a fresh process loading a directory that only ever held the '
+               'files present at the time of that load (same texts, another path)',
+               'merge programs: what the TARGET of an Update(..., overwrite) holds '
+               'afterwards is not judged here (C13 owns the merge result; the '
+               'depth-bounded search judges plain merged targets): judged are the '
+               'outcome-independent facts that no other object changes and that '
+               'never-targeted libraries still equal a fresh load',
+               'the contents-only baseline of a library may be the dump its '
+               '(library, molecule) baseline process made before doing anything else',
+               'within one shard of the prefix family the 20 pairs (p, q1..q20) share '
+               'a process whose first load is p: the k-th pair runs after the loads '
+               'of the k-1 earlier pairs (part of its witness)']
 MANIFEST = dict(
     technique='explicit-state BFS over API histories on the real objects, '
               'fresh-process baselines as oracle, stateless cross-check',
@@ -111,7 +173,13 @@ MANIFEST = dict(
          'in every order on one object; libraries in different unit systems '
          'loaded in every order in one process; requests the library refuses '
          '(caller-made mappings with a non-numeric count or a foreign group) '
-         'before ordinary estimates, on the same or another library object.',
+         'before ordinary estimates, on the same or another library object; '
+         'libraries written with each of the 20 SI prefixes loaded in every '
+         'ordered pair; the files behind one path replaced between two loads '
+         'of that path (scheme, library or included file edited); merge '
+         'programs with and without overwrite over two loaded libraries and a '
+         'constructor-made receiver, where only the target of a merge may '
+         'change.',
     note='Recorded finding K1 (stale elemental reference) is reported as a '
          'known finding; every other difference is a violation.',
     ref='5/C15')
@@ -168,10 +236,13 @@ def syn_dir():
         for sub, files in [('synA', {'library.yaml': SYN_A}),
                            ('synB', {'library.yaml': SYN_B, 'extra.yaml': SYN_B_EXTRA}),
                            ('synU', {'library.yaml': W3.SYN_U})] + [
-                (n, {'library.yaml': W3.units_library(n)}) for n in sorted(W3.UNIT_SYSTEMS)]:
+                (n, {'library.yaml': W3.units_library(n)}) for n in sorted(W3.UNIT_SYSTEMS)] + [
+                (n, {'library.yaml': W4.prefix_library(n)}) for n in W4.PREFIX_LIBS] + sorted(
+                W4.rewrite_variants(SCHEME, SYN_B, SYN_B_EXTRA).items()):
             os.makedirs(os.path.join(d, sub))
-            with open(os.path.join(d, sub, 'scheme.yaml'), 'w') as f:
-                f.write(SCHEME)
+            if 'scheme.yaml' not in files:
+                with open(os.path.join(d, sub, 'scheme.yaml'), 'w') as f:
+                    f.write(SCHEME)
             for n, t in files.items():
                 with open(os.path.join(d, sub, n), 'w') as f:
                     f.write(t)
@@ -229,7 +300,23 @@ def lib_digest(lib):
             tuple(sorted((str(k), repr(v)) for k, v in sch.remaps.items())))
     extra = tuple(sorted(k for k in vars(lib) if k not in
                          ('scheme', 'path', 'contents', 'uq_contents', 'name')))
-    return (tuple(items), uqd, schd, repr(getattr(lib, 'name', '<unset>')), extra)
+    return (tuple(items), uqd, schd, name_digest(getattr(lib, 'name', '<unset>')), extra)
+
+
+def name_digest(name):
+    """The molecule a library remembers, spelled without memory addresses
+    (repr of a Mol object contains one, which made the merging of states -
+    and the evaluation count - vary from run to run): a molecule object is
+    spelled by its atoms, hydrogen counts, radicals, charges and bonds in
+    atom order, so two objects merge only if they are the same graph with the
+    same numbering."""
+    if hasattr(name, 'GetAtoms'):
+        atoms = tuple((a.GetSymbol(), a.GetTotalNumHs(), a.GetNumRadicalElectrons(),
+                       a.GetFormalCharge(), a.GetIsotope()) for a in name.GetAtoms())
+        bonds = tuple(sorted((b.GetBeginAtomIdx(), b.GetEndAtomIdx(), str(b.GetBondType()))
+                             for b in name.GetBonds()))
+        return ('Mol', atoms, bonds)
+    return repr(name)
 
 
 def _sum(v, depth=0):
@@ -271,6 +358,16 @@ def global_digest():
                     v.__defaults__ or v.__kwdefaults__):
                 items.append((name, k, 'defaults',
                               tuple(_sum(x) for x in (v.__defaults__ or ()))))
+            elif (getattr(type(v), '__module__', None) or '').startswith('pgradd') and \
+                    isinstance(getattr(v, '__dict__', None), dict):
+                # a module-level INSTANCE of one of the package's classes (the
+                # units database, the schema repository, constants): what it
+                # holds is process-wide state too
+                for ak, av in sorted(vars(v).items()):
+                    if isinstance(av, (dict, list, set)):
+                        items.append((name, k, 'attr', ak, _sum(av)))
+                    elif isinstance(av, (bool, int, float, str, type(None))):
+                        items.append((name, k, 'attr', ak, repr(av)[:80]))
     return hashlib.sha1(repr(items).encode()).hexdigest()
 
 
@@ -284,13 +381,25 @@ def obj_fingerprint(m):
                   for a in m.GetAtoms()))
 
 
+_WORLD_SERIAL = [0]
+
+
 class World(object):
     def __init__(self):
+        _WORLD_SERIAL[0] += 1
+        self.serial = _WORLD_SERIAL[0]
+        self.slots = {}      # slot name -> variant whose files are in it now
         self.objs = {}       # molecule objects owned by the "caller"
         self.obj_fp = {}
         self.libs = []       # dict(obj, ident(tuple), family, last(molecule), dirty_after=set())
         self.decs = []       # dict(lib, m, family, desc)
         self.ests = []       # dict(obj, lib, dec, stale(bool), ident, merged_after(bool))
+
+    def slot_dir(self, slot):
+        """A directory whose files the caller rewrites between loads: one path
+        per (process, world, slot), below the directory of the synthetic
+        libraries (removed with it)."""
+        return os.path.join(syn_dir(), 'slots', '%d_%d' % (os.getpid(), self.serial), slot)
 
     def digest(self):
         return (tuple((l['ident'], lib_digest(l['obj'])) for l in self.libs),
@@ -341,6 +450,43 @@ def _apply(world, ev):
         world.libs.append(dict(obj=lib, ident=(ev[1],), family=scheme_family(ev[1]),
                                last=None))
         return ['loaded']
+    if kind == 'rewrite':
+        # the caller replaces the files behind a path by those of a variant
+        import shutil
+        d = world.slot_dir(ev[1])
+        os.makedirs(d, exist_ok=True)
+        for n in os.listdir(d):
+            os.remove(os.path.join(d, n))
+        src = os.path.dirname(lib_arg(ev[2]))
+        for n in sorted(os.listdir(src)):
+            shutil.copyfile(os.path.join(src, n), os.path.join(d, n))
+        world.slots[ev[1]] = ev[2]
+        return ['written']
+    if kind == 'loadslot':
+        lib = GroupLibrary.Load(os.path.join(world.slot_dir(ev[1]), 'library.yaml'))
+        V = world.slots[ev[1]]
+        world.libs.append(dict(obj=lib, ident=(V,), family=scheme_family(V), last=None))
+        return ['loaded']
+    if kind == 'new':
+        # a receiver made with the constructor, from the scheme of library ev[1]
+        L = world.libs[ev[1]]
+        world.libs.append(dict(obj=GroupLibrary(L['obj'].scheme),
+                               ident=('new:%s' % L['ident'][0],), family=L['family'],
+                               last=None))
+        return ['made']
+    if kind == 'upd':
+        # Update(target <- source, overwrite)
+        tgt, src = world.libs[ev[1]], world.libs[ev[2]]
+        try:
+            tgt['obj'].Update(src['obj'], overwrite=bool(ev[3]))
+            obs = ['ok']
+        except Exception as ex:      # noqa
+            obs = ['exc', type(ex).__name__]
+        tgt['ident'] = tgt['ident'] + ('!' if ev[3] else '+',) + src['ident']
+        for e in world.ests:
+            if e['lib'] == ev[1]:
+                e['merged_after'] = True
+        return obs
     if kind == 'dec':
         L = world.libs[ev[1]]
         try:
@@ -823,6 +969,15 @@ def requests(tier):
                 reqs.append(((L,), m, None))
             for pairs in W3.refused_mappings(fam):
                 reqs.append(((L,), map_key(pairs), None))
+    # fourth-wave families
+    for L in W4.PREFIX_LIBS:
+        reqs.append(((L,), None, None))
+    for V in W4.REWRITE_VARIANTS:
+        for m in W4.REWRITE_MOLS:
+            reqs.append(((V,), m, None))
+    for L in W4.MERGE_LIBS:
+        reqs.append(((L,), None, None))
+        reqs.append(((L,), W4.MERGE_MOL, None))
     seen, out = set(), []
     for r in reqs:
         if r not in seen:
@@ -1033,6 +1188,148 @@ def run_refused(R, fam, libs, tier):
                   sequences=n), limit=1)
 
 
+# ------------------------------------------------------------ fourth-wave families
+
+REWRITE_LEN = {'quick': 2, 'thorough': 3}
+MERGE_LEN = {'quick': 2, 'thorough': 3}
+
+
+def observe_fully(R, w, i, m, hist, tag):
+    """An ordinary decompose-estimate-evaluate of molecule m on library i,
+    every step judged against the fresh-process baseline; returns the
+    history extended by the state-changing steps."""
+    ev = ('dec', i, m)
+    obs = checked(R, w, ev, hist, tag)
+    hist = hist + (ev,)
+    if obs[0] == 'ok':
+        ev = ('est', i, len(w.decs) - 1)
+        checked(R, w, ev, hist, tag)
+        hist = hist + (ev,)
+        if w.ests[-1]['obj'] is not None:
+            for p in range(len(EVALS)):
+                checked(R, w, ('eval', len(w.ests) - 1, p), hist, tag)
+    return hist
+
+
+def play_prefix(R, plan):
+    """plan = list of library names: loaded one after the other in one world;
+    after every load the contents of EVERY live library are compared with a
+    fresh load."""
+    w = World()
+    hist = ()
+    for L in plan:
+        ev = ('load', L)
+        apply(w, ev)
+        hist = hist + (ev,)
+        for i in range(len(w.libs)):
+            checked(R, w, ('dump', i), hist, 'prefix')
+    R.traces += 1
+    R.transitions += len(hist)
+
+
+def play_rewrite(R, plan):
+    """plan = list of variants: the files of each are written to the SAME path
+    (one slot), which is then loaded; after every load the contents of every
+    live library are compared with a fresh load of the files it was loaded
+    from, and every live library decomposes / estimates / evaluates."""
+    w = World()
+    hist = ()
+    for V in plan:
+        for ev in (('rewrite', 's', V), ('loadslot', 's')):
+            apply(w, ev)
+            hist = hist + (ev,)
+        for i in range(len(w.libs)):
+            checked(R, w, ('dump', i), hist, 'rewrite')
+        for i in range(len(w.libs)):
+            for m in W4.REWRITE_MOLS:
+                hist = observe_fully(R, w, i, m, hist, 'rewrite')
+    R.traces += 1
+    R.transitions += len(hist)
+
+
+def play_merge(R, plan):
+    """plan = dict(libs=[X, Y], seq=[[target, source, overwrite], ...]) over
+    the objects 0 = Load(X), 1 = Load(Y), 2 = GroupLibrary(scheme of 0).
+    Every Update must leave every library but its target unchanged; after
+    every Update each loaded library that has not been a target so far must
+    still equal a fresh load and decompose / estimate / evaluate as in a fresh
+    process.  (What a target holds after the merge is C13's subject and is
+    judged here only in the depth-bounded search above.)"""
+    hist = (('load', plan['libs'][0]), ('load', plan['libs'][1]), ('new', 0))
+    w = rebuild(hist)
+    touched = set([2])
+    for t, s, ow in plan['seq']:
+        ev = ('upd', t, s, ow)
+        before = [lib_digest(l['obj']) for l in w.libs]
+        obs = apply(w, ev)
+        R.evals += 1
+        R.nontrivial += 1
+        R.outcomes['mergeseq:upd:%s' % ':'.join(map(str, obs))] += 1
+        for i, l in enumerate(w.libs):
+            if i != t and lib_digest(l['obj']) != before[i]:
+                R.violation('merge-changed-another-library', 'after %s, Update(%d <- %d, '
+                            'overwrite=%s) changed library %d' % (hist, t, s, bool(ow), i), None)
+        hist = hist + (ev,)
+        touched.add(t)
+        for i in (0, 1):
+            if i not in touched:
+                checked(R, w, ('dump', i), hist, 'mergeseq')
+                hist = observe_fully(R, w, i, W4.MERGE_MOL, hist, 'mergeseq')
+    R.traces += 1
+    R.transitions += len(hist)
+
+
+PLAYERS = {'prefix': play_prefix, 'rewrite': play_rewrite, 'mergeseq': play_merge}
+
+
+def run_plans(R, family, plans):
+    """Execute the plans of one shard one after the other in this process,
+    each on a world of its own.  Process-wide state survives from plan to
+    plan, so a witness carries every plan executed so far."""
+    done = []
+    for plan in plans:
+        done.append(plan)
+        Rp = Result()
+        PLAYERS[family](Rp, plan)
+        R.evals += Rp.evals
+        R.nontrivial += Rp.nontrivial
+        R.outcomes.update(Rp.outcomes)
+        R.traces += Rp.traces
+        R.transitions += Rp.transitions
+        for v in Rp.violations:
+            wit = None
+            if not any(x['key'] == v['key'] for x in R.violations):
+                wit = dict(kind='plans', family=family, key=v['key'],
+                           plans=json.loads(json.dumps(done)))
+            for _ in range(v['count']):
+                R.violation(v['key'], v['msg'], wit)
+    R.extra['%s_plans' % family] += len(plans)
+    if plans:
+        R.sample(dict(family=family, plans=len(plans), first_plan=plans[0],
+                      last_plan=plans[-1]), limit=1)
+
+
+def prefix_plans(first, tier):
+    import itertools
+    plans = [[first, q] for q in W4.PREFIX_LIBS]
+    if tier == 'thorough' and first in W4.PREFIX_SUB:
+        plans += [[first] + list(r) for r in itertools.product(W4.PREFIX_SUB, repeat=2)]
+    return plans
+
+
+def rewrite_plans(tier):
+    import itertools
+    return [list(p) for n in range(2, REWRITE_LEN[tier] + 1)
+            for p in itertools.product(W4.REWRITE_VARIANTS, repeat=n)]
+
+
+def merge_plans(libs, tier):
+    import itertools
+    return [dict(libs=list(libs), seq=[list(e) for e in seq])
+            for n in range(2, MERGE_LEN[tier] + 1)
+            for seq in itertools.product(W4.merge_events(), repeat=n)]
+
+
 def shards(tier, seed):
     base = syn_dir()
     table = precompute(tier)
@@ -1048,6 +1345,9 @@ def shards(tier, seed):
         if (fam, libs[0]) not in firsts:
             firsts.append((fam, libs[0]))
     out += [('refused', fam, first, base, table) for fam, first in firsts]
+    out += [('prefix', L, base, table) for L in W4.PREFIX_LIBS]
+    out += [('rewrite', base, table)]
+    out += [('mergeseq', libs, base, table) for libs in W4.merge_worlds(tier)]
     return out
 
 
@@ -1061,6 +1361,12 @@ def adopt(base, table):
     _SYN_DIR['d'] = base
     for ident, m, fmt, v in table:
         _BASE[(tuple(ident), m, fmt)] = v
+    for ident, m, fmt, v in table:
+        # the fresh process of a (library, molecule) request dumps the library
+        # before it does anything else: that dump serves a contents-only
+        # request for which no process of its own was run
+        if m is not None and fmt is None and 'dump' in v:
+            _BASE.setdefault((tuple(ident), None, None), {'dump': v['dump']})
 
 
 def run_shard(shard, tier):
@@ -1080,6 +1386,12 @@ def run_shard(shard, tier):
         for fam, libs in refused_worlds(tier):
             if fam == shard[1] and libs[0] == shard[2]:
                 run_refused(R, fam, libs, tier)
+    elif shard[0] == 'prefix':
+        run_plans(R, 'prefix', prefix_plans(shard[1], tier))
+    elif shard[0] == 'rewrite':
+        run_plans(R, 'rewrite', rewrite_plans(tier))
+    elif shard[0] == 'mergeseq':
+        run_plans(R, 'mergeseq', merge_plans(shard[1], tier))
     else:
         run_stateless(R, tuple(shard[1]), tier)
     R.extra['max_fresh_process_baselines'] = len(_BASE)
@@ -1093,6 +1405,15 @@ def replay(w):
         run_blank(R)
         return dict(violates=bool(R.violations), detail='; '.join(
             v['msg'] for v in R.violations) or 'holds', _cleanup=cleanup())
+    if w.get('kind') == 'plans':
+        # the whole sequence of plans the shard's process had executed
+        for plan in w['plans']:
+            PLAYERS[w['family']](R, plan)
+        hit = [v for v in R.violations if v['key'] == w.get('key')]
+        return dict(violates=bool(hit),
+                    detail='\n'.join(v['key'] + ': ' + v['msg'] for v in hit[:3]) or
+                    'holds (%d plans re-executed)' % len(w['plans']),
+                    _cleanup=cleanup())
     hist = tuple(tuple(e) for e in w['history'])
     ev = tuple(w['event'])
     world = rebuild(hist)
